@@ -87,7 +87,7 @@ CLAIMED["C07"] = dict(
 )
 
 CLAIMED['C03'] = dict(
-    text="Theorems (coq/Properties/C03.v) on the single-end pipeline model, for every option set, adapter set (Forall wf_padapter) and read: with actions trim/none the written read is a contiguous slice of the input read (of its reverse complement exactly when --revcomp chose it), qualities are the same slice (zero-capped only if -z, only values below the base), sequence and qualities have equal length (C03_slice, using C01's structure theorem for every applied match and the composition of rounds); every non-adapter stage is a same-slice / names-only / zero-cap-only step; mask and lowercase keep length and qualities and write N / lower case exactly outside the composed interval; retain/crop are Python slices (contiguous, qualities in step). Paired-end: the paired model (Model/Paired.v) applies the same stages per mate (C05_stages_per_mate) and is tied to the code by its own correspondence; the slice statement for pairs and the exact retain/crop interval are checked by correspondence + the paired slice oracle, not proved.",
+    text="Theorems (coq/Properties/C03.v) on the single-end pipeline model, for every option set, adapter set (Forall wf_padapter) and read: with actions trim/none the written read is a contiguous slice of the input read (of its reverse complement exactly when --revcomp chose it), qualities are the same slice (zero-capped only if -z, only values below the base), sequence and qualities have equal length (C03_slice, using C01's structure theorem for every applied match and the composition of rounds); every non-adapter stage is a same-slice / names-only / zero-cap-only step; mask and lowercase keep length and qualities and write N / lower case exactly outside the composed interval; retain/crop are Python slices (contiguous, qualities in step). Paired-end: C03_paired_slice (Proofs/PairedSlice.v) -- for trim/none, every option set and order, both mates leaving the paired chain are well-formed and each is a slice, qualities in step, of its own input mate or (only with --revcomp, when the paired reverse-complement step swapped the pair) of the other one; covers --pair-adapters, paired --revcomp and one cutter per mate. The exact retain/crop interval for pairs is checked by correspondence + the paired slice oracle, not proved.",
     technique="Coq proof (induction over the stage list, slice composition lemmas, C01 structure theorem) + Orders translator + extracted-model system-level correspondence; slice oracle on the implementation's outputs",
     design='6/C03',
     note=TB + " System-level tie: cutadapt.cli.main run in-process on the rebuilt working tree vs the extracted pipeline model (output files, info file, JSON report counts and per-adapter statistics compared); argparse, dnaio and report formatting are not modelled; adapter objects are taken from the real parser (C18's business); --rename, wildcard/rest files and adapter indexing (runs use --no-index) are outside the pipeline model.",
